@@ -311,7 +311,8 @@ impl CraneliftCompiler {
                         loaded
                     };
 
-                    self.set_dst(bcx, &insn, ext);
+                    // LD_ABS_* and LD_IND_* always load into r0 (their dst field is unused).
+                    bcx.def_var(self.registers[0], ext);
                 }
                 ebpf::LD_DW_IMM => {
                     insn_ptr += 1;
